@@ -18,7 +18,7 @@ _spec2 = importlib.util.spec_from_file_location("units_c02_for_c05", os.path.joi
 _c02 = importlib.util.module_from_spec(_spec2)
 _spec2.loader.exec_module(_c02)
 for _u in _c02.UNITS:
-    if ".insert@" in _u["name"] or ".remove@" in _u["name"] or _u["name"].endswith(".layout") or _u["name"].endswith(".swap"):
+    if ".insert@" in _u["name"] or ".remove@" in _u["name"] or _u["name"].endswith(".layout") or _u["name"].endswith(".swap") or ".removeFront" in _u["name"] or ".removeBack" in _u["name"] or ".remove_key" in _u["name"] or ".remove_value" in _u["name"]:
         _d = dict(_u)
         _d["prop"] = "C05"
         UNITS.append(_d)
